@@ -51,7 +51,7 @@ def obligations(tier, seed):
     for f in FIXTURES: obs.append(dict(name='fixture/' + f, kind='fixture', fx=f, timeout_s=900, cost=10))
     # flag modifications change what is executed (P2SH off: no redeem-script section) and so what the listing must show (seed C12-4)
     # p2sh-empty-redeem: the scriptSig ends with OP_0 after an earlier data push, the redeem script is the empty script (seed C12-5 listed the earlier push as the redeem script)
-    for syn in ('p2sh', 'legacy', 'p2sh-empty-redeem', 'p2sh-two-pushes'):
+    for syn in ('p2sh', 'legacy', 'p2sh-empty-redeem', 'p2sh-two-pushes', 'legacy-empty-scriptsig'):
         obs.append(dict(name='synthetic/%s' % syn, kind='fixture', synth=syn, timeout_s=900, cost=5))
         obs.append(dict(name='synthetic/%s/-f-P2SH' % syn, kind='fixture', synth=syn, opts=['-f-P2SH'], timeout_s=900, cost=5))
     obs.append(dict(name='fixture/p2pkh/-f-P2SH,-WITNESS', kind='fixture', fx='p2pkh', opts=['-f-P2SH,-WITNESS'], timeout_s=900, cost=10))
@@ -67,6 +67,7 @@ def synth_pair(which):
     elif which == 'p2sh': redeem = [0x52, 0x93]; spk = [0xa9, 0x14] + h160(redeem) + [0x87]; ss = [0x51, len(redeem)] + redeem          # OP_1 <OP_2 OP_ADD>
     elif which == 'p2sh-empty-redeem': redeem = []; spk = [0xa9, 0x14] + h160(redeem) + [0x87]; ss = [0x02, 0x51, 0x52, 0x00]           # <OP_1 OP_2> OP_0, redeem script empty
     elif which == 'p2sh-two-pushes': redeem = [0x75, 0x51]; spk = [0xa9, 0x14] + h160(redeem) + [0x87]; ss = [0x03, 0x52, 0x53, 0x93, 0x02] + redeem  # <OP_2 OP_3 OP_ADD> <OP_DROP OP_1>
+    elif which == 'legacy-empty-scriptsig': spk = [0x51, 0x51, 0x87]; ss = []                                                            # nothing | 1 1 EQUAL (seed C12-6: no scriptPubKey header line then)
     elif which == 'legacy': spk = [0x93, 0x53, 0x87]; ss = [0x51, 0x52]                                                                    # 1 2 | ADD 3 EQUAL
     f_full, f_str = C03.ser_tx([2, 0, 0, 0], [([0x11] * 32, [0, 0, 0, 0], [], [0xff] * 4, None)], [((1000).to_bytes(8, 'little'), spk)], [0] * 4)
     txid = list(hashlib.sha256(hashlib.sha256(bytes(f_str)).digest()).digest())
